@@ -192,7 +192,7 @@ def minimise20(trace, want, budget_s=120, log=print):
         attempt(c)
         i -= 1
     # faults off
-    for key, val in (('p_dup', 0), ('float32', False), ('single_callable', False)):
+    for key, val in (('p_dup', 0), ('float32', False), ('single_callable', False), ('rerender_on_change', False)):
         if w(cur).get(key):
             c = copy.deepcopy(cur)
             w(c)[key] = val
